@@ -274,5 +274,37 @@ def run(ck, facts, tier):
             ck.ok("R9.5", "%s re-parses its own validated string (discharged by L9 + A9)" % what)
         else:
             ck.bad("R9.5", "R9.5@%s#arg" % what, "%s re-parses something other than its validated string" % what, fn.loc)
+    # R9.6 the one-shot resolve() wrappers only forward to the base's resolve (no special cases of their own)
+    for name_re, what, base_fn in [
+        (r"_wrapper::Iri::<T>::resolve$", "Iri::resolve", r"BaseIri::<T>::resolve$"),
+        (r"_wrapper::IriRef::<T>::resolve$", "IriRef::resolve", r"BaseIriRef::<T>::resolve$"),
+    ]:
+        fns = facts.find_fns(crate="sophia_iri", name_re=name_re)
+        if len(fns) != 1:
+            ck.bad("R9.6", "R9.6@%s#anchor" % what, "anchor-missing: %s (%d)" % (what, len(fns)))
+            continue
+        fn = fns[0]
+        branches = [bi for bi, b in enumerate(fn.blocks) if not b.get("cleanup") and b["t"]["t"] == "switch"
+                    and not (b["t"]["on"][0] != "k" and fn.locals[b["t"]["on"][1][0]]["ty"] == "bool"
+                             and fn.single_def(b["t"]["on"][1][0]) is None)]
+        real = []
+        for bi in branches:
+            t = fn.blocks[bi]["t"]
+            o = fn.origin(t["on"])
+            if o[0] == "const":
+                continue       # drop flags
+            real.append(bi)
+        calls = [t for _, t in fn.calls()]
+        fwd = [t for t in calls if call_name_matches(t, base_fn)]
+        asb = [t for t in calls if call_name_matches(t, r"::as_base$")]
+        ok = len(fwd) == 1 and len(asb) == 1 and not real and fwd[0]["dest"] == [0]
+        if ok:
+            a = fn.origin(fwd[0]["args"][1])
+            ok = a[0] == "param" and a[1] == 2
+        if ok:
+            ck.ok("R9.6", "%s = self.as_base().resolve(rel), nothing else" % what)
+        else:
+            ck.bad("R9.6", "R9.6@%s#not-a-forwarder" % what, "%s is expected to be exactly `self.as_base().resolve(rel)`; found %d branch(es), "
+                   "%d resolve call(s)" % (what, len(real), len(fwd)), fn.loc)
     ck.floor("L9", "IRI predicates with a decided language", len(langs), 3)
     ck.floor("L9", "context-restricted obligations", len(ctxs), 20)
